@@ -6,6 +6,7 @@ import (
 	"io"
 	"net"
 	"slices"
+	"sync"
 	"sync/atomic"
 	"time"
 
@@ -50,13 +51,31 @@ func WithDebug(f func(format string, arg ...any)) Option {
 // after New returns.
 func NewConn(ctx context.Context, conn net.Conn, options ...Option) (outConn *Conn, err error) {
 	defer func() { convertErrorsToAlerts(conn, err) }()
+	// The context only bounds the reading of the first ClientHello: the
+	// watcher never touches the connection once NewConn is returning, and
+	// a deadline it set just before a successful return is cleared.
+	var mu sync.Mutex
+	var finished, fired bool
 	done := make(chan struct{})
-	defer close(done)
+	defer func() {
+		mu.Lock()
+		finished = true
+		if fired && err == nil {
+			conn.SetDeadline(time.Time{})
+		}
+		mu.Unlock()
+		close(done)
+	}()
 	go func() {
 		select {
 		case <-done:
 		case <-ctx.Done():
-			conn.SetDeadline(time.Now())
+			mu.Lock()
+			if !finished {
+				fired = true
+				conn.SetDeadline(time.Now())
+			}
+			mu.Unlock()
 		}
 	}()
 	record, err := readRecord(conn)
